@@ -42,6 +42,7 @@ func fnDiscard(ctx *cmdContext, args map[string]any) (output respValue, err erro
 	// clear out watch map and discard multi command queue
 	ctx.cs.watches = map[watchKey]uint64{}
 	ctx.cs.cmdQueue = nil
+	ctx.cs.cmdQueueAborted = false
 	output.data = rstrOK
 	return
 }
@@ -59,6 +60,15 @@ func isAbortedExecUnlocked(cs *clientState) bool {
 func fnExec(ctx *cmdContext, args map[string]any) (output respValue, err error) {
 	if ctx.cs.cmdQueue == nil {
 		output.data = respErrorString("ERR EXEC without MULTI")
+		return
+	}
+
+	if ctx.cs.cmdQueueAborted {
+		// a command was rejected while queueing: nothing is executed
+		ctx.cs.watches = map[watchKey]uint64{}
+		ctx.cs.cmdQueue = nil
+		ctx.cs.cmdQueueAborted = false
+		output.data = respErrorString("EXECABORT Transaction discarded because of previous errors.")
 		return
 	}
 
@@ -100,6 +110,7 @@ func fnMulti(ctx *cmdContext, args map[string]any) (output respValue, err error)
 		output.data = respErrorString("ERR MULTI calls can not be nested")
 	} else {
 		ctx.cs.cmdQueue = &[]*cmdContext{}
+		ctx.cs.cmdQueueAborted = false
 		output.data = rstrOK
 	}
 	return
